@@ -43,6 +43,26 @@ class Mode:
     def unpt(self, x):
         return x
 
+    def wts(self, qs):       # weights: as control points unless a mode says otherwise
+        return self.pts(qs)
+
+    def unwt(self, x):
+        return self.unpt(x)
+
+
+class TinyWeightMode(Mode):
+    """every weight multiplied by 1e-12 (exactly): a rational curve does not depend on the scale of its weights, all
+    operations with a unique result are linear in (w P, w), so the small spec state is still the oracle; code that
+    compares weights or denominators with an absolute tolerance shows here"""
+    name = "tiny-weights"
+    L = Fraction(1, 10 ** 12)
+
+    def wts(self, qs):
+        return [self.L * fr(q) for q in qs]
+
+    def unwt(self, x):
+        return x / self.L
+
 
 class HugeMode(Mode):
     """huge rationals: knots and parameters are mapped by u -> S u + A, control points and weights by x -> M x with
@@ -130,7 +150,7 @@ class MinPointMode(Mode):
         return MinPt(fr(q))
 
 
-MODES = {"huge": HugeMode, "minimal-point": MinPointMode, "fraction": Mode, "int": IntMode, "float": FloatMode, "numpy.float64": NpFloatMode}
+MODES = {"tiny-weights": TinyWeightMode, "huge": HugeMode, "minimal-point": MinPointMode, "fraction": Mode, "int": IntMode, "float": FloatMode, "numpy.float64": NpFloatMode}
 
 
 def classify(exc):
@@ -205,7 +225,7 @@ class Replayer:
             c = self.Curve(self.mode.nums(o["U"]))
             c.ctrlpoints = self.mode.pts(o["P"])
             if o["W"]:
-                c.weights = self.mode.pts(o["W"])
+                c.weights = self.mode.wts(o["W"])
             return c
         raise core.MachineryError(f"unknown object kind {o}")
 
@@ -219,7 +239,7 @@ class Replayer:
                     c = self.Curve(kobj)
                     c.ctrlpoints = self.mode.pts(o["P"])
                     if o["W"]:
-                        c.weights = self.mode.pts(o["W"])
+                        c.weights = self.mode.wts(o["W"])
                     live[name] = c
         return live
 
@@ -244,7 +264,7 @@ class Replayer:
             W = obj.weights
             return {"kind": "cv", "U": [self.num_out(m.unnum(x)) for x in obj.knotvector],
                     "P": None if P is None else [self.num_out(m.unpt(x)) for x in P],
-                    "W": [] if W is None else [self.num_out(m.unpt(x)) for x in W]}
+                    "W": [] if W is None else [self.num_out(m.unwt(x)) for x in W]}
         raise core.MachineryError(f"cannot project {type(obj)}")
 
     def same_nums(self, got, want):
@@ -433,7 +453,7 @@ class Replayer:
         kv = live[a["obj"]]
         f = self.Function(kv)
         if a["weights"]:
-            f.weights = self.mode.pts(a["weights"])
+            f.weights = self.mode.wts(a["weights"])
         u = self.mode.num(a["u"])
         return {"f": f, "u": u}
 
@@ -569,6 +589,15 @@ class Replayer:
             out["eq"].append(A2 == B2)
             out["ne"].append(A2 != B2)
             out["sym"].append(B2 == A2)
+            # the same question asked of 2-D curves: (A, A) against (B, B), and (5, A) against (5, B) whose first
+            # coordinates always agree - equal exactly when A and B are
+            import numpy as np
+            for first in (None, Fraction(5)):
+                X = self.Curve(A.knotvector, [np.array([p if first is None else first, p], dtype=object) for p in A.ctrlpoints], A.weights)
+                Y = self.Curve(B.knotvector, [np.array([p if first is None else first, p], dtype=object) for p in B.ctrlpoints], B.weights)
+                out["eq"].append(X == Y)
+                out["ne"].append(X != Y)
+                out["sym"].append(Y == X)
         return out
 
     def do_CvCopy(self, live, a):
@@ -583,7 +612,7 @@ class Replayer:
         live[a["obj"]].ctrlpoints = self.mode.pts(a["points"])
 
     def do_CvSetWeights(self, live, a):
-        live[a["obj"]].weights = self.mode.pts(a["weights"])
+        live[a["obj"]].weights = self.mode.wts(a["weights"])
 
     def do_KvConvert(self, live, a):
         kv = live[a["obj"]]
@@ -598,6 +627,10 @@ class Replayer:
         if val["types"] - {val["cls"]}:
             f.append(f"convert({val['cls']}) left knots of type {sorted(val['types'])}")
         return f
+
+    def do_CvApply(self, live, a):
+        M = [[self.mode.num(x) for x in row] for row in a["matrix"]]
+        live[a["obj"]].apply(self.KnotVector(self.mode.nums(a["kv"])), M)
 
     def do_CvSetKnotvector(self, live, a):
         live[a["obj"]].knotvector = self.mode.nums(a["kv"])
@@ -830,7 +863,20 @@ class Replayer:
         if cls == "ok" and ret["class"] in ("ok", "any"):
             h = getattr(self, "cmp_" + act["name"], None)
             if h is not None:
-                fails += h(live, t, val) or []
+                try:
+                    fails += h(live, t, val) or []
+                except core.MachineryError:
+                    raise
+                except Exception as e:
+                    # the follow-up calls of a comparison (other indexing forms, alias entry points ...) are calls of the
+                    # library on valid input: an exception raised INSIDE the library is a failure of the code, not of the harness
+                    import traceback
+                    frames = traceback.extract_tb(e.__traceback__)
+                    if not any("/compmec/nurbs/" in fr_.filename for fr_ in frames):
+                        raise
+                    where = next(fr_ for fr_ in reversed(frames) if "/compmec/nurbs/" in fr_.filename)
+                    fails.append(f"{act['name']}: a follow-up call raised {type(e).__name__}: {e} "
+                                 f"(in {where.filename.split('/compmec/nurbs/')[-1]}:{where.name})")
         if sem and self.validator is not None and not any(f.startswith("state[") for f in fails):
             self.emit(t, live, cls, val, fails)
         elif sem and self.validator is None and self.mode.exact and cls == "ok":
@@ -1497,7 +1543,7 @@ class Replayer:
         polynomial's value there - even where the library's tolerance-based multiplicity count would call the
         parameter "the knot".  TLC cannot hold 1e-12 (32-bit integers); the interpolation is done here, on TLC's values."""
         pre = t["pre"][t["act"]["obj"]]
-        if pre.get("W"):
+        if pre.get("W") or self.mode.name not in ("fraction", "int", "float", "numpy.float64"):
             return []
         U = [fr(x) for x in pre["U"]]
         deg = self._deg(pre["U"])
